@@ -383,7 +383,7 @@ func (r *replayer) value(t *Term, typ types.Type, depth int) string {
 			return r.typeStr(typ) + "{}"
 		}
 		es := r.x.tm.SortOf(u.Elem())
-		h := r.x.initial(elemsKey(es), elemsSort(es))
+		h := r.x.initial(r.x.tm.ElemsKey(u.Elem()), elemsSort(es))
 		var els []string
 		for i := int64(0); i < n; i++ {
 			et := Sel(Sel(h, SArr(t)), App("+", SInt, SOff(t), IntLit(i)))
